@@ -386,3 +386,51 @@ PROPS["C19"] = dict(
     assumptions=EXEC_ASSUME + ["one subscription field per subscription request (the registration order of two fields of one request follows Go map order)"],
     design_ref="DESIGN.md section 5 C19",
 )
+
+PROPS["C20"] = dict(
+    pkg="conc", test="TestC20", engine="conc", race=True, own_loop=True,
+    quick=dict(checks=120, shards=2), thorough=dict(checks=16000, shards=8), timeout=dict(quick=900, thorough=3000),
+    nt_floor=dict(quick=500, thorough=20000),
+    must_classes=["exhaustive-part", "generated-program-enumerated", "generated-program-sampled-schedule", "publish-phases-interleaved", "stress-round(-race)",
+                  "workers=2", "workers=3", "workers=4"],
+    exhaustive_key="exhaustive_interleavings", extra_max=["exhaustive_interleavings", "exhaustive_programs"],
+    level="exploration",
+    technique="schedule exploration with a harness-owned scheduler over yield hooks (build tag verif): block interleavings of small concurrent publish/subscribe/unsubscribe programs enumerated exhaustively, larger ones under rapid-drawn schedules; plus unscheduled stress under the Go race detector",
+    rule="Workers run programs of 1-3 registry calls (subscribe with exact or prefix match and always-failing or healthy delivery, publish,"
+         " unsubscribe), optionally after pre-registered subscribers. ggql.VerifYield parks every worker immediately before each acquisition"
+         " of the registry lock (subscribe, unsubscribe, both phases of publish); the harness releases exactly one worker at a time, so a"
+         " schedule is a list of choices. Part 1: five canonical programs (two publishers failing on one subscriber; unsubscribe racing the"
+         " clean-up phase; publish/unsubscribe/subscribe mixes) - every block interleaving enumerated. Part 2: rapid-generated programs - all"
+         " interleavings when <= 8 blocks (up to 3000), one drawn schedule otherwise. Part 3: 30+ rounds of 4-16 free-running goroutines"
+         " under -race. Oracle on logs stamped with a logical clock: <= 1 delivery per (publish, subscriber); <= 1 clean-up per subscriber;"
+         " no delivery after the return of an unsubscribe that matches the subscriber; a publish that starts after a subscription returned"
+         " reaches it unless an unsubscribe/failure intervened; deliveries only for matching ids; returned counts within the min..max over"
+         " all sequential orders of the calls; no deadlock (10 s watchdog per block); no race report. Non-trivial = another worker runs"
+         " between the two phases of a publish (or a stress round).",
+    level_text="Block interleavings of the listed small programs are exhaustive (exhaustive=true refers to Part 1); everything else is sampled."
+               " Completeness at block granularity relies on every registry access sitting inside the hooked critical sections, which the -race part watches.",
+    level_note="Trusted: the hooks' placement (add-only lines before each Lock), goroutine identification via runtime.Stack, the logical clock.",
+    assumptions=["only one worker runs between two yield points, so the order of registry critical sections equals the schedule",
+                 "the oracle stops at the conditions the statement enumerates: a second publisher attempting an already failing subscriber in the gap between the phases is not flagged"],
+    design_ref="DESIGN.md section 5 C20",
+)
+
+PROPS["C12"] = dict(
+    pkg="conc", test="TestC12", engine="conc", race=True,
+    quick=dict(checks=240, shards=3), thorough=dict(checks=32000, shards=16), timeout=dict(quick=900, thorough=3000),
+    nt_floor=dict(quick=150, thorough=20000),
+    must_classes=["concurrent-goroutines>=2", "strategies=X", "strategies=RX", "strategies=A", "interfaces-and-unions", "yield-jitter", "goroutines=2", "goroutines=32"],
+    level="exploration",
+    technique="concurrency testing under the Go race detector: generated request mixes released together on a cold root (nothing lazily bound yet), each response compared with the same request run alone; yield hooks add scheduling jitter at the lazy-binding sites",
+    rule="Each iteration builds a fresh (cold) root over a universe schema (named Go types with fields and methods, optional interface and"
+         " union, bindings by name / @go / RegisterType / RegisterField) served by reflection, by reflection mixed with Resolver objects, or"
+         " by the root resolver; 4-24 generated requests (nested selections, fragments, arguments, variables, introspection) are assigned to"
+         " 2..2xcores goroutines that start behind one barrier and parse+resolve against the one root. Oracles: the race detector"
+         " (GORACE=halt_on_error: a report kills the worker, the driver turns it into a violation with the last case as replay); a 90 s"
+         " deadlock watchdog; each response equals the response of the same request run alone on its own fresh root. Non-trivial = at"
+         " least two goroutines actually issue requests.",
+    level_text="Schedules are whatever the Go scheduler produces (plus hook jitter): sampled, not enumerated. The race detector only sees accesses that execute.",
+    level_note="Trusted: Go race detector; the harness fixtures are themselves race-free (call log and counters are mutex protected).",
+    assumptions=["registration (RegisterType/RegisterField) happens before the barrier; the property lists only parsing and resolving as concurrent operations"],
+    design_ref="DESIGN.md section 5 C12",
+)
